@@ -150,9 +150,11 @@ func c06Valid() []string {
 		add("select "+f+"() where true", "select key where "+f+"() = 1", "select key, "+f+"(key, value, 1, 'x') where true", "select * where "+f+"()", "select "+f+"() as x, count(1) where true group by x")
 		for _, v := range vals {
 			add("select key, " + f + "(" + v + ") as x where true")
+			add("select " + f + "(" + v + ") as x, count(1) where true")
 			add("select key where " + f + "(" + v + ") = " + f + "(" + v + ")")
-			for _, v2 := range []string{"key", "1", "','", "list(1, 2, 3)", "json(value)['l']", "0.5"} {
+			for _, v2 := range []string{"key", "1", "','", "list(1, 2, 3)", "json(value)['l']", "0.5", "0 - 1", "0.0 - 0.5", "2", "1.0", "0", "99999999999"} {
 				add("select key, " + f + "(" + v + ", " + v2 + ") as x where true order by x")
+				add("select " + f + "(" + v + ", " + v2 + ") as x where true")
 			}
 		}
 	}
